@@ -70,3 +70,46 @@ pub fn small(level: u8) -> Vec<Piece> {
     }
     p
 }
+
+/// Alphabet emphasising the grammar: every kind of bad request line and header line.
+pub fn grammar(level: u8) -> Vec<Piece> {
+    let b = crate::connx::buffer_size();
+    let mut p = vec![
+        piece("rl_get", Class::ReqLine, b"GET / HTTP/1.1\r\n"),
+        piece("rl_put10", Class::ReqLine, b"PUT /a HTTP/1.0\r\n"),
+        piece("rl_bad_version", Class::ReqLine, b"GET / HTTP/1.2\r\n"),
+        piece("rl_bad_method_lc", Class::ReqLine, b"get / HTTP/1.1\r\n"),
+        piece("rl_bad_double_sp", Class::ReqLine, b"GET  HTTP/1.1\r\n"),
+        piece("rl_bad_missing_field", Class::ReqLine, b"GET /\r\n"),
+        piece("rl_bad_uri_utf8", Class::ReqLine, b"GET /\xff HTTP/1.1\r\n"),
+        piece("rl_bad_method_and_version", Class::ReqLine, b"POST / HTTP/2\r\n"),
+        piece("h_cl3", Class::Header, b"Content-Length: 3\r\n"),
+        piece("h_cl_bad", Class::Header, b"Content-Length: x\r\n"),
+        piece("h_nocolon", Class::Header, b"nocolon\r\n"),
+        piece("h_nonutf8", Class::Header, b"X: \xff\r\n"),
+        piece("h_ae_bad", Class::Header, b"Accept-Encoding: *;q=0\r\n"),
+        piece("h_xa", Class::Header, b"X-a: 1\r\n"),
+        piece("blank", Class::Blank, b"\r\n"),
+        piece("body_abc", Class::Body, b"abc"),
+        piece("stray_cr", Class::Stray, b"\r"),
+    ];
+    if level >= 1 {
+        p.extend(vec![
+            piece("rl_patch_utf8", Class::ReqLine, "PATCH /\u{e9} HTTP/1.1\r\n".as_bytes()),
+            piece("h_expect_unsupported", Class::Header, b"Expect: 103-checkpoint\r\n"),
+            piece("stray_lf", Class::Stray, b"\n"),
+            piece("h_cl3_lower", Class::Header, b"content-length: 3\r\n"),
+            piece("rl_bad_uri_and_version", Class::ReqLine, b"GET  HTTP/9\r\n"),
+            piece("rl_len_b", Class::ReqLine, &line_of_len("GET /", " HTTP/1.1", b)),
+            piece("rl_len_b+1", Class::ReqLine, &line_of_len("GET /", " HTTP/1.1", b + 1)),
+            piece("h_cl41", Class::Header, b"Content-Length: 41\r\n"),
+            piece("h_cl40", Class::Header, b"Content-Length: 40\r\n"),
+            piece("h_ae_empty", Class::Header, b"Accept-Encoding:\r\n"),
+            piece("h_accept_json", Class::Header, b"Accept: application/json\r\n"),
+            piece("h_te_chunked", Class::Header, b"Transfer-Encoding: chunked\r\n"),
+            piece("h_len_b+1", Class::Header, &line_of_len("X-a: ", "", b + 1)),
+            piece("body_tricky40", Class::Body, &tricky_body(40)),
+        ]);
+    }
+    p
+}
